@@ -9,6 +9,7 @@ open Proto Rng
           -> new:<seed> old:<seed>      (old = pinned code on sorted(unique(used)))
       hist <start> <file> <curs> <rows>
           -> seeds the successive extensions run with
+      histshared <start> <file> <cur> <rows>     (one service object through all extensions)
       trials <n> <ncpu> <seed> <pos> <mseed:mpos|-|same> <maxEv> <nSig> <thr> <maxRep> <npar> <lo> <hi> <tables>
           tables = seed=w,w,…;seed=w,…   (32-bit words of numpy's MT19937 streams, supplied by the harness)
           (`same` = the data service itself is passed as minimizer_rss: reference 0 twice)
@@ -95,6 +96,8 @@ def answer (line : String) : String :=
       s!"new:{extendSeed (pN st) u (pN cur)} old:{extendSeedOld (sortedUnique u) (pN cur)}"
   | ["hist", st, file, curs, rows] =>
       fListD toString (extendMany (pN st) (pList pN file) ((pList pN curs).zip (pList pN rows)))
+  | ["histshared", st, file, cur, rows] =>
+      fListD toString (extendShared (pN st) (pList pN file) (pN cur) (pList pN rows))
   | ["trials", n, ncpu, seed, pos, m, maxEv, nSig, thr, maxRep, npar, lo, hi, tabs] =>
       let cfg := synCfg ⟨pN maxEv, pN nSig, pF thr, pN maxRep, pN npar, pF lo, pF hi⟩
       let gen := genOf (parseTables tabs)
